@@ -318,6 +318,6 @@ func init() {
 			}
 			return w
 		},
-		BudgetS: [2]int{170, 1700},
+		BudgetS: [2]int{170, 3000},
 	})
 }
